@@ -312,6 +312,18 @@ func init() {
 				sc.Timer(pick()).Record(1)
 				sc.Histogram(pick(), tally.ValueBuckets{1}).RecordValue(1)
 			}
+			// a root without tags of its own: a map that needs no sanitizing is handed to Tagged, and the caller goes on
+			// using (and dirtying) its map afterwards - what the scope delivers stays sanitized
+			root2, _ := tally.VerifNewRootScope(tally.ScopeOptions{Reporter: rec, SanitizeOptions: &o, OmitCardinalityMetrics: true}, 0, 1)
+			own := map[string]string{"k": "v", "route": "list"}
+			s2 := root2.Tagged(own)
+			s2.Counter("m").Inc(1)
+			own["k"] = pick()
+			own["route"] = "GET /a?b=1"
+			own[pick()] = pick()
+			s2.Counter("m").Inc(1)
+			s2.SubScope("n").Gauge("g").Update(1)
+			tally.VerifReportOnce(root2)
 			tally.VerifReportOnce(root)
 			count := func(s string, vc tally.ValidCharacters) int {
 				bad := 0
